@@ -23,6 +23,7 @@ def dispatch (op : String) (args : List String) (impl : String) : Verdict :=
   | "stats" => opStats args impl
   | "rep" => opRep args impl
   | "client" => opClient args impl
+  | "noncepool" => opNoncePool args impl
   | "cfg" => opCfg args impl
   | "envenc" => opEnvEnc args impl
   | "envdec" => opEnvDec args impl
